@@ -100,8 +100,6 @@ def tlc_grid(tier):
     runs.append(("sqvol", dict(consts, VGrid=("<-", "VGridSq"), XGrid=("<-", "XGridSmall"), MaxOrder="3")))
     if tier == "thorough":
         runs.append(("big_mass", dict(consts, MaxOrder="4", XGrid=("<-", "XGridBig"))))
-        runs.append(("big_hill", dict(consts, MaxOrder="1", XGrid=("<-", "XGridBig"), KGrid=("<-", "KGridDef"), VGrid=("<-", "VGridBig"),
-                                      KKGrid=("<-", "KKGridBig"), NGrid=("<-", "NGridBig"))))
         runs.append(("ns4", dict(consts, NS="4", XGrid=("<-", "XGridSmall"), NGrid=("<-", "NGridDef"))))
     return runs
 
